@@ -1,42 +1,378 @@
 #include "sim/families.hpp"
 
+#include <algorithm>
 #include <sstream>
 
+#include "ref/gen.hpp"
 #include "sim/monitors.hpp"
 
 namespace sim {
 
 namespace {
 
-Scenario demo(uint64_t seed) {
-    Scenario sc; sc.family = "demo"; sc.seed = seed;
-    sc.end = 10 * SEC;
+// ------------------------------------------------------------------------------------------------ judging one run
+struct Judge {
+    const FamilyCtx& ctx; vu::Result& res;
+    uint64_t cases = 0;
+
+    // returns true if the scenario ran to its end (not aborted by the engine)
+    bool judge(const Scenario& sc, Execution& ex, bool count_shape = true) {
+        ++cases;
+        res.evaluations++;
+        Verdicts v;
+        monitor_engine(ex.run, v, res);
+        monitor_all(ex.run, v, res);
+        if (count_shape) res.hash(trace_shape(ex.run));
+        res.count("connections", ex.world->h.conns.size());
+        res.count("client_packets", ex.world->h.cpkts.size());
+        res.count("broker_packets", ex.world->h.bpkts.size());
+        res.count("operations", ex.world->h.ops.size());
+        res.count("idle_points", ex.run.out.idle_points);
+        for (auto& c : ex.world->h.conns) if (c.faulted) res.count("connections_lost_to_faults");
+        if (ex.run.out.harness_failure) { res.harness_error = ex.run.out.harness_what; return false; }
+        for (auto& f : v.findings) {
+            std::string prop = f.prop, key = f.key;
+            if (prop == "ENGINE") {
+                // exceptions / livelocks / assertions: violations of the properties that promise their absence or that
+                // cannot hold without progress; for the others the run is inconclusive
+                if (ctx.prop == "C19" || ctx.prop == "C05" || ctx.prop == "C02") { prop = ctx.prop; key = ctx.prop + ":" + f.key; }
+                else { res.harness_error = "inconclusive: scenario aborted by the engine (" + f.key + "): " + f.what; continue; }
+            }
+            std::string replay = "scenario:\n" + sc.describe() + "\nfinding: " + f.what + "\n\nhistory:\n" + ex.world->h.dump(900);
+            if (prop == ctx.prop) res.violation(prop, key, f.what + " [family " + sc.family + " seed " + std::to_string(sc.seed) + " index " + std::to_string(sc.index) + "]", replay);
+            else if (res.notes.size() < 8) res.notes.push_back("NOTE " + prop + " monitor: " + key + ": " + f.what.substr(0, 160));
+        }
+        return !(ex.run.out.exception || ex.run.out.hang);
+    }
+};
+
+// ------------------------------------------------------------------------------------------------ generic workload
+struct Knobs {
+    int pubs_min = 1, pubs_max = 10;
+    int qos_w[3] = {1, 2, 2};
+    int subs = 1, unsubs = 0, inbound = 2;
+    bool rich_props = true;
+    int big_payload_pct = 5;
+    std::vector<int> rm_choices = {0, 0, 1, 2, 3, 5, 65535};
+    vt ack_delay_max = 20 * MS;
+    int faults_max = 2;
+    int bad_attempts_max = 2;
+    int lose_session_pct = 20;
+    vt span = 2 * SEC;
+    int burst_pct = 30;
+    int fail_rc_pct = 5, alt_rc_pct = 5, ack_props_pct = 30;
+    vt suffix = 120 * SEC;
+    int keep_alive = 60;
+    bool conformant = true;
+};
+
+ref::Props pub_props(vu::Rng& rng, bool rich) {
+    ref::Props p;
+    if (!rich || rng.chance(1, 3)) return p;
+    ref::Gen g(rng); g.max_str = 40;
+    // everything except Topic Alias (needs a broker limit) and Subscription Identifier (not allowed from a client)
+    p = g.props(ref::PUBLISH, -1, {0x23, 0x0B});
+    for (auto& x : p) if (x.id == 0x01) x.num = 0;   // payload format indicator 1 would require UTF-8 payloads
+    return p;
+}
+
+std::string payload_for(vu::Rng& rng, int big_pct) {
+    size_t n = rng.chance(1, 8) ? 0 : rng.range(1, 60);
+    if ((int)rng.below(100) < big_pct) n = rng.pick(std::vector<size_t>{127, 128, 300, 16383, 16384, 20000, 70000});
+    std::string s(n, 0);
+    for (size_t i = 0; i < n; ++i) s[i] = char(i < 48 ? rng.below(256) : 'a' + (i % 23));
+    return s;
+}
+
+AttemptPlan bad_attempt(vu::Rng& rng) {
+    AttemptPlan a;
+    switch (rng.below(6)) {
+        case 0: a.tcp = AttemptPlan::tcp_refused; break;
+        case 1: a.tcp = AttemptPlan::tcp_hang; break;
+        case 2: a.hs = AttemptPlan::hs_silent; break;
+        case 3: a.hs = AttemptPlan::hs_refuse_rc; a.refuse_rc = rng.pick(std::vector<uint8_t>{0x80, 0x87, 0x88, 0x89, 0x97, 0x9F}); break;
+        case 4: a.hs = AttemptPlan::hs_close; break;
+        case 5: a.tcp = AttemptPlan::tcp_unreachable; break;
+    }
+    return a;
+}
+
+Scenario gen_mix(vu::Rng& rng, const Knobs& k, const std::string& family) {
+    Scenario sc; sc.family = family;
+    sc.ccfg.keep_alive = (uint16_t)k.keep_alive;
+    sc.ccfg.client_id = "c" + std::to_string(rng.below(1000));
+    int rm = rng.pick(k.rm_choices);
+    if (rm > 0) sc.bcfg.caps.receive_maximum = (uint16_t)rm;
+    sc.bcfg.ack_delay_max = k.ack_delay_max ? (vt)rng.range(0, k.ack_delay_max) : 0;
+    sc.bcfg.lose_session_pct = k.lose_session_pct;
+    sc.bcfg.fail_rc_pct = k.fail_rc_pct; sc.bcfg.alt_success_rc_pct = k.alt_rc_pct; sc.bcfg.ack_props_pct = k.ack_props_pct;
+    sc.net.chunking = rng.pick(std::vector<Chunking>{Chunking::whole, Chunking::whole, Chunking::bytewise, Chunking::random});
+    if (rng.chance(1, 4)) sc.net.write_done_delay_max = (vt)rng.range(10 * US, 3 * MS);
+    if (rng.chance(1, 4)) { sc.net.latency_min = 1 * MS; sc.net.latency_max = (vt)rng.range(2 * MS, 80 * MS); }
     Action r; r.kind = Action::run; r.at = 0; sc.script.push_back(r);
-    for (int i = 0; i < 3; ++i) {
-        Action p; p.kind = Action::publish; p.at = (100 + i) * MS; p.qos = i; p.topic = "t"; p.payload = "hello" + std::to_string(i);
+    int npubs = (int)rng.range(k.pubs_min, k.pubs_max);
+    vt t = (vt)rng.range(0, 50 * MS);
+    int wsum = k.qos_w[0] + k.qos_w[1] + k.qos_w[2];
+    for (int i = 0; i < npubs; ++i) {
+        Action p; p.kind = Action::publish;
+        int x = (int)rng.below(wsum); p.qos = x < k.qos_w[0] ? 0 : x < k.qos_w[0] + k.qos_w[1] ? 1 : 2;
+        p.retain = rng.chance(1, 5);
+        p.topic = "t" + std::to_string(rng.below(4));
+        p.payload = payload_for(rng, k.big_payload_pct);
+        p.props = pub_props(rng, k.rich_props);
+        if ((int)rng.below(100) >= k.burst_pct) t += (vt)rng.range(0, k.span / std::max(1, npubs));
+        p.at = t;
         sc.script.push_back(p);
     }
-    Action s; s.kind = Action::subscribe; s.at = 200 * MS; s.subs = {{"a/+", 1}}; sc.script.push_back(s);
-    Action bp; bp.kind = Action::broker_publish; bp.at = 500 * MS; bp.qos = 2; bp.topic = "x"; bp.payload = "inbound"; sc.script.push_back(bp);
+    for (int i = 0; i < k.subs; ++i) {
+        Action s; s.kind = Action::subscribe; s.at = (vt)rng.range(0, k.span);
+        int n = (int)rng.range(1, 3);
+        for (int j = 0; j < n; ++j) s.subs.emplace_back("f" + std::to_string(j) + "/" + rng.pick(std::vector<std::string>{"a/+", "b/#", "c", "+/x", "d/e/f", "#"}), uint8_t(rng.below(3) | (rng.below(2) << 2) | (rng.below(2) << 3) | (rng.below(3) << 4)));
+        if (rng.chance(1, 3)) { ref::Prop u; u.id = 0x26; u.s1 = "k"; u.s2 = "v"; s.props.push_back(u); }
+        if (rng.chance(1, 4)) { ref::Prop u; u.id = 0x0B; u.num = rng.range(1, 268435455); s.props.push_back(u); }
+        sc.script.push_back(s);
+    }
+    for (int i = 0; i < k.unsubs; ++i) {
+        Action s; s.kind = Action::unsubscribe; s.at = (vt)rng.range(0, k.span);
+        int n = (int)rng.range(1, 3);
+        for (int j = 0; j < n; ++j) s.subs.emplace_back("u/" + std::to_string(j) + "/+", 0);
+        sc.script.push_back(s);
+    }
+    for (int i = 0; i < k.inbound; ++i) {
+        Action b; b.kind = Action::broker_publish; b.at = (vt)rng.range(0, k.span); b.qos = (int)rng.below(3); b.topic = "m" + std::to_string(i);
+        b.payload = payload_for(rng, 2); b.retain = rng.chance(1, 6);
+        if (rng.chance(1, 3)) { ref::Gen g(rng); g.max_str = 30; b.props = g.props(ref::PUBLISH, -1, {0x23}); }
+        sc.script.push_back(b);
+    }
+    // faults: byte offsets are drawn against a rough estimate of the traffic; misses simply do not fire
+    int nf = (int)rng.below(k.faults_max + 1);
+    for (int i = 0; i < nf; ++i) {
+        Fault f; f.kind = rng.pick(std::vector<Fault::Kind>{Fault::reset_c2b, Fault::reset_c2b, Fault::reset_b2c, Fault::reset_b2c, Fault::eof_b2c, Fault::write_fail_delivered});
+        f.conn_ordinal = i; f.at = rng.range(0, 30 + 40 * npubs); f.ec = (int)rng.below(6);
+        sc.faults.push_back(f);
+    }
+    int nb = (int)rng.below(k.bad_attempts_max + 1);
+    // bad attempts are placed after the first good connection so that the workload meets them while reconnecting
+    sc.attempts.clear();
+    if (nb) {
+        int pos = (int)rng.below(3);
+        for (int i = 0; i < pos; ++i) sc.attempts.push_back(AttemptPlan{});
+        for (int i = 0; i < nb; ++i) sc.attempts.push_back(bad_attempt(rng));
+    }
+    sc.end = k.span + k.suffix;
     return sc;
+}
+
+// ------------------------------------------------------------------------------------------------ crash-point sweep
+// Runs `base` fault-free to learn how many bytes cross the first connection in each direction, then yields one
+// scenario per crash point (and per outcome of the following connection attempt).
+struct CrashSweep {
+    Scenario base; size_t c2b = 0, b2c = 0; bool measured = false;
+    void measure() {
+        Scenario s = base; s.faults.clear(); s.attempts.clear();
+        auto ex = execute(s);
+        for (auto& c : ex->world->h.conns) if (c.tcp_ok) { c2b = c.c2b_bytes; b2c = c.b2c_bytes; break; }
+        measured = true;
+    }
+    size_t points() const { return c2b + b2c + c2b; }   // reset c2b at k, reset b2c at k, write-fail-delivered at k
+    Scenario at(size_t point, int next_attempt) const {
+        Scenario s = base;
+        Fault f; f.conn_ordinal = 0;
+        if (point < c2b) { f.kind = Fault::reset_c2b; f.at = point; }
+        else if (point < c2b + b2c) { f.kind = Fault::reset_b2c; f.at = point - c2b; }
+        else { f.kind = Fault::write_fail_delivered; f.at = point - c2b - b2c; }
+        f.ec = int(point % 6);
+        s.faults.push_back(f);
+        s.attempts.clear();
+        if (next_attempt) {
+            s.attempts.push_back(AttemptPlan{});
+            AttemptPlan a;
+            if (next_attempt == 1) a.tcp = AttemptPlan::tcp_refused;
+            else if (next_attempt == 2) { a.hs = AttemptPlan::hs_refuse_rc; a.refuse_rc = 0x88; }
+            else a.hs = AttemptPlan::hs_silent;
+            s.attempts.push_back(a);
+        }
+        s.index = point * 4 + next_attempt;
+        return s;
+    }
+};
+
+Scenario reference_workload(int which, uint64_t seed) {
+    Scenario sc; sc.family = "ref" + std::to_string(which); sc.seed = seed;
+    sc.net.latency_min = 200 * US; sc.net.latency_max = 200 * US;
+    Action r; r.kind = Action::run; sc.script.push_back(r);
+    auto pub = [&](vt at, int qos, const char* payload) { Action p; p.kind = Action::publish; p.at = at; p.qos = qos; p.topic = "r"; p.payload = payload; sc.script.push_back(p); };
+    auto sub = [&](vt at) { Action s; s.kind = Action::subscribe; s.at = at; s.subs = {{"s/+", 1}, {"q", 2}}; sc.script.push_back(s); };
+    auto unsub = [&](vt at) { Action s; s.kind = Action::unsubscribe; s.at = at; s.subs = {{"s/+", 0}}; sc.script.push_back(s); };
+    auto inbound = [&](vt at, int qos) { Action b; b.kind = Action::broker_publish; b.at = at; b.qos = qos; b.topic = "i"; b.payload = "in"; sc.script.push_back(b); };
+    switch (which) {
+        case 0: pub(10 * MS, 1, "a"); pub(10 * MS, 2, "b"); break;
+        case 1: sub(10 * MS); unsub(12 * MS); pub(14 * MS, 1, "c"); break;
+        case 2: pub(10 * MS, 2, "d"); inbound(11 * MS, 2); pub(12 * MS, 0, "e"); pub(12 * MS, 1, "f"); break;
+        case 3: sc.bcfg.caps.receive_maximum = 1; pub(10 * MS, 1, "g"); pub(10 * MS, 2, "h"); pub(10 * MS, 1, "i"); break;
+        case 4: sc.bcfg.ack_delay_max = 3 * MS; pub(10 * MS, 2, "j"); pub(10 * MS, 2, "k"); sub(10 * MS); inbound(10 * MS, 1); break;
+        default: sc.bcfg.caps.receive_maximum = 2; pub(10 * MS, 2, "l"); pub(11 * MS, 1, "m"); pub(12 * MS, 2, "n"); inbound(12 * MS, 2); inbound(13 * MS, 1); unsub(13 * MS); break;
+    }
+    sc.end = 1 * SEC + 120 * SEC;
+    return sc;
+}
+
+void run_mix(Judge& j, const Knobs& k, const std::string& family, uint64_t n) {
+    const FamilyCtx& ctx = j.ctx;
+    for (uint64_t i = 0; i < n; ++i) {
+        if (int(i % ctx.nshards) != ctx.shard) continue;
+        vu::Rng rng(ctx.seed * 1000003 + vu::fnv(family) % 100000 + i * 7919);
+        Scenario sc = gen_mix(rng, k, family);
+        sc.seed = ctx.seed; sc.index = i;
+        vu::set_case(sc.family + " seed=" + std::to_string(sc.seed) + " index=" + std::to_string(i));
+        auto ex = execute(sc);
+        j.judge(sc, *ex);
+        if (j.res.samples.size() < 2) j.res.sample(vu::jesc(sc.describe().substr(0, 1500)));
+    }
+}
+
+void run_sweep(Judge& j, int nworkloads, bool pairs, const std::vector<int>& next_attempts) {
+    const FamilyCtx& ctx = j.ctx;
+    uint64_t idx = 0;
+    for (int wl = 0; wl < nworkloads; ++wl) {
+        CrashSweep sw; sw.base = reference_workload(wl, ctx.seed);
+        sw.measure();
+        j.res.count("crash_points_total", sw.points() * next_attempts.size());
+        for (size_t p = 0; p < sw.points(); ++p)
+            for (int na : next_attempts) {
+                if (int(idx++ % ctx.nshards) != ctx.shard) continue;
+                Scenario sc = sw.at(p, na);
+                sc.family = "sweep-" + sw.base.family;
+                vu::set_case(sc.family + " point=" + std::to_string(p) + " next=" + std::to_string(na));
+                auto ex = execute(sc);
+                j.judge(sc, *ex);
+                j.res.count("crash_points_run");
+                bool fired = false;
+                for (auto& e : ex->world->h.ev) if (e.kind == Ev::fault) fired = true;
+                if (fired) j.res.count("crash_points_fired");
+            }
+        if (pairs) {
+            // second fault on the following connection: sampled grid over its byte range
+            for (size_t p = 0; p < sw.points(); p += 3)
+                for (size_t q = 0; q < sw.c2b + sw.b2c; q += 5) {
+                    if (int(idx++ % ctx.nshards) != ctx.shard) continue;
+                    Scenario sc = sw.at(p, 0);
+                    Fault f; f.conn_ordinal = 1;
+                    if (q < sw.c2b) { f.kind = Fault::reset_c2b; f.at = q; } else { f.kind = Fault::reset_b2c; f.at = q - sw.c2b; }
+                    f.ec = int(q % 6);
+                    sc.faults.push_back(f);
+                    sc.family = "sweep2-" + sw.base.family; sc.index = p * 100000 + q;
+                    vu::set_case(sc.family + " p=" + std::to_string(p) + " q=" + std::to_string(q));
+                    auto ex = execute(sc);
+                    j.judge(sc, *ex);
+                    j.res.count("crash_point_pairs_run");
+                }
+        }
+    }
+}
+
+// ------------------------------------------------------------------------------------------------ idle-point sweep (terminal actions)
+void run_idle_sweep(Judge& j, uint64_t nbase, int max_idle, const std::vector<int>& term_kinds) {
+    const FamilyCtx& ctx = j.ctx;
+    uint64_t idx = 0;
+    Knobs k; k.pubs_max = 6; k.suffix = 12 * SEC; k.span = 1 * SEC; k.faults_max = 1; k.bad_attempts_max = 1; k.big_payload_pct = 0;
+    for (uint64_t bi = 0; bi < nbase; ++bi) {
+        vu::Rng rng(ctx.seed * 31337 + bi * 104729);
+        Scenario base = gen_mix(rng, k, "idle-base");
+        base.seed = ctx.seed; base.index = bi;
+        if (rng.chance(1, 4)) base.net.shutdown_hangs = true;
+        if (rng.chance(1, 5)) { base.attempts.clear(); AttemptPlan a; a.tcp = AttemptPlan::tcp_hang; base.attempts.push_back(a); base.default_attempt = a; }
+        // number of idle points of the undisturbed run
+        uint64_t nidle;
+        { auto ex = execute(base); nidle = ex->run.out.idle_points; }
+        int limit = (int)std::min<uint64_t>(nidle, max_idle);
+        for (int ip = 1; ip <= limit; ++ip)
+            for (int tk : term_kinds) {
+                if (int(idx++ % ctx.nshards) != ctx.shard) continue;
+                Scenario sc = base; sc.family = "idle-sweep"; sc.index = bi * 1000000 + ip * 10 + tk;
+                Action a; a.idle_index = ip;
+                switch (tk) {
+                    case 0: a.kind = Action::cancel; break;
+                    case 1: a.kind = Action::disconnect; a.rc = 0; break;
+                    case 2: a.kind = Action::destroy; break;
+                    case 3: {   // cancel, run again, cancel again
+                        a.kind = Action::cancel;
+                        Action r2; r2.kind = Action::run; r2.idle_index = ip + 2; sc.script.push_back(r2);
+                        Action p2; p2.kind = Action::publish; p2.qos = 1; p2.topic = "again"; p2.payload = "x"; p2.idle_index = ip + 3; sc.script.push_back(p2);
+                        Action c2; c2.kind = Action::cancel; c2.idle_index = ip + 9; sc.script.push_back(c2);
+                        break;
+                    }
+                    case 4: {   // per-operation signal on the first request of the script
+                        a.kind = Action::signal; a.target = 1; a.sig = rng.pick(std::vector<SigType>{SigType::total, SigType::partial, SigType::terminal});
+                        if (sc.script.size() > 1) sc.script[1].with_slot = true;
+                        break;
+                    }
+                    case 5: a.kind = Action::disconnect; a.rc = 4; { ref::Prop u; u.id = 0x1F; u.s1 = "bye"; a.props.push_back(u); } break;
+                }
+                sc.script.push_back(a);
+                vu::set_case(sc.family + " base=" + std::to_string(bi) + " idle=" + std::to_string(ip) + " terminal=" + std::to_string(tk));
+                auto ex = execute(sc);
+                j.judge(sc, *ex);
+                j.res.count("terminal_placements");
+                j.res.count("terminal_kind_" + std::to_string(tk));
+            }
+    }
 }
 
 }  // namespace
 
 int run_families(const FamilyCtx& ctx, vu::Result& res) {
-    if (ctx.args.has("demo")) {
-        Scenario sc = demo(ctx.seed);
+    Judge j{ctx, res};
+    const std::string& P = ctx.prop;
+    bool T = ctx.thorough;
+    if (ctx.args.has("replay-mix")) {
+        // re-run one generated scenario and print its history: --replay-mix <family> --index N
+        std::string fam = ctx.args.str("replay-mix");
+        uint64_t i = (uint64_t)ctx.args.num("index", 0);
+        vu::Rng rng(ctx.seed * 1000003 + vu::fnv(fam) % 100000 + i * 7919);
+        Knobs k;
+        Scenario sc = gen_mix(rng, k, fam); sc.seed = ctx.seed; sc.index = i;
         auto ex = execute(sc);
-        printf("%s\n%s\n", sc.describe().c_str(), ex->world->h.dump(2000).c_str());
-        printf("outcome: exception=%d hang=%d harness=%d(%s) final_stopped=%d idle_points=%llu handlers=%llu\n", ex->run.out.exception, ex->run.out.hang,
-               ex->run.out.harness_failure, ex->run.out.harness_what.c_str(), ex->run.out.final_stopped, (unsigned long long)ex->run.out.idle_points, (unsigned long long)ex->run.out.handlers);
-        for (auto& o : ex->world->h.ops)
-            printf("op %d %s completions=%d ec=%s dropped=%d t=%.6f\n", o.id, op_kind_name(o.kind), o.completions, ec_name(o.ec).c_str(), o.dropped, o.t_done / 1e9);
-        res.evaluations = 1;
+        printf("%s\n%s\n", sc.describe().c_str(), ex->world->h.dump(3000).c_str());
+        j.judge(sc, *ex);
         return 0;
     }
-    res.harness_error = "no family for " + ctx.prop;
-    return 2;
+    if (P == "C01") {
+        Knobs k; k.inbound = 3; k.qos_w[0] = 0; k.qos_w[1] = 1; k.qos_w[2] = 1;
+        run_mix(j, k, "c01-mix", T ? 200000 : 4000);
+    } else if (P == "C02") {
+        run_sweep(j, T ? 6 : 4, T, T ? std::vector<int>{0, 1, 2, 3} : std::vector<int>{0, 2});
+        Knobs k; k.faults_max = 3; k.bad_attempts_max = 3;
+        run_mix(j, k, "c02-mix", T ? 60000 : 1500);
+    } else if (P == "C03") {
+        run_sweep(j, T ? 6 : 3, false, {0});
+        Knobs k; k.qos_w[0] = 1; k.qos_w[1] = 1; k.qos_w[2] = 4; k.faults_max = 3; k.rm_choices = {0, 1, 2, 3};
+        run_mix(j, k, "c03-mix", T ? 150000 : 2500);
+    } else if (P == "C05") {
+        run_idle_sweep(j, T ? 40 : 4, T ? 200 : 90, {0, 1, 2, 3, 4, 5});
+        Knobs k; k.suffix = 15 * SEC;
+        run_mix(j, k, "c05-mix", T ? 50000 : 1000);
+    } else if (P == "C06") {
+        Knobs k; k.pubs_min = 2; k.pubs_max = 60; k.burst_pct = 70; k.faults_max = 3; k.qos_w[0] = 2; k.big_payload_pct = 2; k.inbound = 0; k.subs = 0;
+        run_mix(j, k, "c06-mix", T ? 150000 : 3000);
+    } else if (P == "C07") {
+        Knobs k; k.pubs_min = 4; k.pubs_max = 30; k.burst_pct = 80; k.rm_choices = {1, 1, 2, 3, 4, 8, 65535}; k.qos_w[0] = 1; k.faults_max = 2; k.ack_delay_max = 200 * MS; k.inbound = 1; k.subs = 0;
+        run_mix(j, k, "c07-mix", T ? 150000 : 3000);
+    } else if (P == "C08") {
+        Knobs k; k.pubs_min = 5; k.pubs_max = 40; k.subs = 2; k.unsubs = 2; k.faults_max = 2; k.inbound = 3;
+        run_mix(j, k, "c08-mix", T ? 100000 : 2000);
+    } else if (P == "C13") {
+        Knobs k; k.pubs_max = 4; k.subs = 2; k.faults_max = 3; k.lose_session_pct = 60; k.inbound = 2;
+        run_mix(j, k, "c13-mix", T ? 150000 : 3000);
+    } else if (P == "C14") {
+        Knobs k; k.pubs_max = 2; k.subs = 3; k.unsubs = 2; k.faults_max = 2;
+        run_mix(j, k, "c14-mix", T ? 150000 : 3000);
+    } else {
+        res.harness_error = "no simulator family for " + P;
+        return 2;
+    }
+    if (!res.harness_error.empty()) return 2;
+    return res.violations.empty() ? 0 : 1;
 }
 
 }  // namespace sim
